@@ -173,3 +173,37 @@ def simple_assignments(root):
                     yield t, st.value
         elif isinstance(st, ast.AnnAssign) and st.value is not None:
             yield st.target, st.value
+
+
+def unsupplied_defaults(prog, fi):
+    """{('sym', param): ('const', default)} for the defaulted parameters of a PRIVATE method that no call site of the
+    package ever supplies (a helper generalised with `units=None`, `steps=10` behaves as before for its callers)"""
+    if not fi.name.startswith("_") or fi.name.startswith("__") or fi.cls is None:
+        return {}
+    a = fi.node.args
+    pos = [x.arg for x in a.posonlyargs + a.args]
+    if pos and not fi.is_static:
+        pos = pos[1:]
+    defaults = dict(zip(pos[len(pos) - len(a.defaults):], a.defaults)) if a.defaults else {}
+    defaults.update({x.arg: d for x, d in zip(a.kwonlyargs, a.kw_defaults) if d is not None})
+    if not defaults:
+        return {}
+    supplied = set()
+    for m in prog.modules.values():
+        for n in ast.walk(m.tree):
+            if isinstance(n, ast.Attribute) and n.attr == fi.name:
+                pass
+            if isinstance(n, ast.Call) and isinstance(n.func, ast.Attribute) and n.func.attr == fi.name:
+                for i, _x in enumerate(n.args):
+                    if i < len(pos):
+                        supplied.add(pos[i])
+                for k in n.keywords:
+                    supplied.add(k.arg)  # None for **kwargs: then nothing can be assumed
+    if None in supplied:
+        return {}
+    # the method must not escape as a value (e.g. handed to adopt with arguments) other than through a plain reference
+    env = {}
+    for name, d in defaults.items():
+        if name not in supplied and isinstance(d, ast.Constant):
+            env[("sym", name)] = ("const", d.value)
+    return env
